@@ -503,9 +503,23 @@ func (f *Frame) applyContract(instr ssa.Instruction, ct *Contract, c *ssa.CallCo
 		for i, rn := range ct.Results {
 			post.vars[rn] = SpecVal{T: rvals[i].T, Typ: sig.Results().At(i).Type(), V: rvals[i]}
 		}
+		// `opt useonly PATTERN name,name`: at calls of PATTERN only the named postconditions of the callee are assumed
+		// (a sound weakening that keeps value-describing clauses the caller does not need out of its queries)
+		var useOnly map[string]bool
+		if f.parent == nil && e.contract != nil && e.contract.Opts["useonly"] != "" {
+			if pat, names := splitWord(e.contract.Opts["useonly"]); matchPattern(pat, name) {
+				useOnly = map[string]bool{}
+				for _, n := range strings.Split(names, ",") {
+					useOnly[strings.TrimSpace(n)] = true
+				}
+			}
+		}
 		for _, en := range ct.Ensures {
 			if strings.Contains(en.Text, "ret(") || strings.Contains(en.Text, "called(") || strings.Contains(en.Text, "argof(") {
 				continue // refers to the callee's internal call history: proved in the callee, not visible to callers
+			}
+			if useOnly != nil && !useOnly[en.Name] {
+				continue
 			}
 			t, err := post.evalBool(en.Expr)
 			if err != nil {
